@@ -388,6 +388,19 @@ def run(ctx: Ctx) -> None:
                             exp = G.inv_rigid(model[(b, a)])
                         ops.append(f"query {a.value}->{b.value}")
                         ctx.count("C18.history_queries")
+                        # plain accessors answer for the registered direction only, under every key spelling
+                        direct = model.get((a, b))
+                        for key in ((a, b), (a.value, b.value), TransformKey(a, b)):
+                            try:
+                                item = td[key]
+                            except KeyError:
+                                item = None
+                            got = td.get(key)
+                            ok = (item is got) and ((direct is None) == (item is None)) and (item is None or np.array_equal(np.asarray(item.matrix, dtype=float), direct))
+                            ctx.check(ok, "C18/registry_accessor_disagrees_with_registrations", dict(ops=ops[-8:], key=str(key), have_direct=direct is not None, item=item is not None, get=got is not None), "TransformDict.transform")
+                        keys_now = sorted((k.src.value, k.dst.value) for k in td.keys())
+                        want_keys = sorted((x.value, y.value) for x, y in model)
+                        ctx.check(keys_now == want_keys and len(td) == len(model) and sorted((k.src.value, k.dst.value) for k in td) == want_keys and sorted((k.src.value, k.dst.value) for k, _ in td.items()) == want_keys, "C18/registry_accessor_disagrees_with_registrations", dict(ops=ops[-8:], keys=keys_now, expected=want_keys, len=len(td)), "TransformDict.transform")
                         try:
                             out = td.transform(r.choice([(a, b), (a.value, b.value), TransformKey(a, b)]), p)
                         except KeyError:
